@@ -7,7 +7,7 @@ _c01 = _u.module_from_spec(_spec)
 _spec.loader.exec_module(_c01)
 
 CFG = {
-    "modules": ["HumphreyModel.Props.C04"],
+    "modules": ["HumphreyModel.Props.C04", "HumphreyModel.Props.C04Ws"],
     "rule": "generated applications with 0..4 host sub-apps x 0..6 routes and 0..2 WebSocket routes each plus the default "
             "sub-app, patterns from a pool of literals, prefixes, suffixes, infixes, multiple/adjacent '*', empty, "
             "non-ASCII, with shadowing (repeated patterns); every handler answers with its own id; 14 requests per "
@@ -27,8 +27,11 @@ CFG = {
     "level_text": "getHandler_some_iff: for every application (any number of sub-apps and routes), Host and path, the model's "
                   "handler choice is exactly 'first matching route of the first matching host, else first matching "
                   "default route', stated over the glob RELATION (C05) rather than the matcher; unmatched => 404; the "
-                  "routed path never contains the query. The WebSocket rule is the same function over ws routes "
-                  "(model identical in structure; its iff-theorem is not restated).",
+                  "routed path never contains the query. Props/C04Ws.lean: wsHandler_some_iff / wsHandler_none_iff give the "
+                  "same exact characterisation for WebSocket routes (first matching ws route of the first matching host, "
+                  "else of the default sub-app); upgrade_dispatch: an upgrade request is handed to exactly that handler, "
+                  "an unrouted upgrade writes nothing and closes; parsed_request_uri_has_no_query for the whole request "
+                  "parser on any source.",
     "level_note": "Trusted: Lean kernel; Model/Route.lean tied to app.rs get_handler/call_websocket_handler by the run.",
     "technique": "Lean 4 theorem over List.find? and the proved glob matcher + differential correspondence",
 }
